@@ -241,7 +241,7 @@ def known_expr(findings, parts_all):
 
 def run_obligation(res, spec, findings, check_c04_only=False):
     shims.install()
-    ex = Explorer(max_paths=spec.get("max_paths", 60000))
+    ex = Explorer(max_paths=spec.get("max_paths", 60000), path_wall_s=120)      # hangs are detected by the (deterministic) operation budget; the wall clock is only a backstop
 
     def fn(ex):
         doc, expected, parts = build_document(ex, spec)
